@@ -92,14 +92,13 @@ Theorem C02_move_safe : forall ax e dir c sm s r sl o i,
 Proof. exact c02_move_safe_l. Qed.
 Print Assumptions C02_move_safe.
 
-(* move: a command that reported Ok has left the bytes of its source in a regular file AT move_target, and they
-   are still there at the end of the run (any order, any oracle), provided no symbolic link sits at a target. *)
+(* move: a command that reported Ok has left the bytes of its source in a regular file AT its target
+   (move_target_of fc = norm (move_target DIR source)), and they are still there at the end of the run (any order,
+   any oracle).  Since fix 041ee27 the existence check does not follow links, so nothing can sit at the target. *)
 Theorem C02_move_readable : forall ax e dir c sm s r sl o i,
   report_ok s r -> wf s -> victims_regular s (run_cmds ax (OpMove dir) c sm s r) ->
   let cs := map (fcmd_of e) (run_cmds ax (OpMove dir) c sm s r) in
   forall cs', Permutation cs cs' ->
-  (forall x, In x (run_cmds ax (OpMove dir) c sm s r) ->
-     forall y, names s (norm (move_target dir (mpath (cmd_victim x)))) <> Some (NLink y)) ->
   let out := run_script sl o i cs' s in
   forall fc res, In (fc, res) (combine cs' (sresults out)) -> res = IOk ->
   forall i0 d0, names s (victim fc) = Some (NFile i0) -> inodes s i0 = Some d0 ->
